@@ -1943,3 +1943,140 @@ func allocFieldInit(a *ssa.Alloc, field string, l *loopB, ok func(ssa.Value) boo
 	}
 	return lastOK
 }
+
+// ---------------------------------------------------------------------------------------------
+// condition updaters (a slice of conditions looked up by type, then refreshed in place or appended)
+
+// pathAppends reports whether the path executes a builtin append.
+func pathAppends(p *Path) bool {
+	for _, b := range p.Blocks {
+		for _, in := range b.Instrs {
+			if c, ok := in.(*ssa.Call); ok && builtinCall(c, "append") != nil {
+				return true
+			}
+		}
+	}
+	return false
+}
+
+// pathFoundElement reports whether the path knows that the looked-up element exists: the index is
+// known >= 0 / != -1, or the looked-up pointer (accepted by isElemPtr) is known non-nil; paths that
+// append a new element are excluded.
+func pathFoundElement(p *Path, isElemPtr func(ssa.Value) bool) bool {
+	if pathAppends(p) {
+		return false
+	}
+	for _, f := range p.Facts {
+		bo, isBo := f.V.(*ssa.BinOp)
+		if !isBo {
+			continue
+		}
+		switch bo.Op {
+		case token.GEQ, token.LSS: // key (idx<0)
+			if c, isC := constInt(bo.Y); isC && c == 0 && !f.Pol {
+				return true
+			}
+		case token.GTR, token.LEQ: // idx > -1 : key (-1<idx)
+			if c, isC := constInt(bo.Y); isC && c == -1 && f.Pol {
+				return true
+			}
+		case token.EQL, token.NEQ:
+			if c, isC := constInt(bo.Y); isC && c == -1 && !f.Pol {
+				return true
+			}
+			if c, isC := constInt(bo.X); isC && c == -1 && !f.Pol {
+				return true
+			}
+			if !f.Pol && (isNilConst(bo.Y) && isElemPtr(bo.X) || isNilConst(bo.X) && isElemPtr(bo.Y)) {
+				return true
+			}
+		}
+	}
+	return false
+}
+
+// elemFieldSet reports whether, on every path of fn accepted by onPath that does not contradict the
+// assumptions (parameter == string constant), field `field` of the element accepted by isElem is
+// assigned the parameter val: by a store <elem>.field = val, or by a call to a repository helper that
+// receives the element and val and does so on all its paths (under the same assumptions, mapped to
+// the helper's parameters). With unlessEqual, paths on which the field is known to equal val already
+// are not required to assign it. n counts the paths looked at; bad describes the first failing path.
+func elemFieldSet(r *Run, fn *ssa.Function, isElem func(ssa.Value) bool, field string, val *ssa.Parameter, assume map[*ssa.Parameter]string, onPath func(*Path) bool, unlessEqual bool, depth int) (all bool, n int, bad string) {
+	paths, _, ok := funcPaths(fn, 5000)
+	r.paths += len(paths)
+	if !ok || depth > 3 {
+		return false, 0, "path cap exceeded"
+	}
+	all = true
+	for _, p := range paths {
+		contra := false
+		for prm, s := range assume {
+			if p.Has(false, func(v ssa.Value, _ string) bool { return isEqCompare(v, isParam(prm), isConstStringVal(s)) }) {
+				contra = true
+			}
+		}
+		if contra || (onPath != nil && !onPath(p)) {
+			continue
+		}
+		if unlessEqual && p.Has(true, func(v ssa.Value, _ string) bool {
+			return isEqCompare(v, func(x ssa.Value) bool {
+				u, isU := x.(*ssa.UnOp)
+				if !isU || u.Op != token.MUL {
+					return false
+				}
+				fa, isFA := u.X.(*ssa.FieldAddr)
+				return isFA && fieldName(fa) == field && isElem(fa.X)
+			}, isParam(val))
+		}) {
+			continue // the field is known to hold the value already
+		}
+		n++
+		done := false
+		for _, b := range p.Blocks {
+			for _, in := range b.Instrs {
+				switch x := in.(type) {
+				case *ssa.Store:
+					if fa, isFA := x.Addr.(*ssa.FieldAddr); isFA && fieldName(fa) == field && isElem(fa.X) && (x.Val == ssa.Value(val) || readsParam(x.Val, val)) {
+						done = true
+					}
+				case *ssa.Call:
+					cal := staticCallee(&x.Call)
+					if cal == nil || !r.Prog.IsRuleSite(cal) || len(cal.Blocks) == 0 {
+						continue
+					}
+					var pe, pv *ssa.Parameter
+					sub := map[*ssa.Parameter]string{}
+					for i, a := range x.Call.Args {
+						if i >= len(cal.Params) {
+							break
+						}
+						switch {
+						case isElem(a):
+							pe = cal.Params[i]
+						case a == ssa.Value(val) || readsParam(a, val):
+							pv = cal.Params[i]
+						}
+						for prm, s := range assume {
+							if a == ssa.Value(prm) {
+								sub[cal.Params[i]] = s
+							}
+						}
+					}
+					if pe == nil || pv == nil {
+						continue
+					}
+					if good, m, _ := elemFieldSet(r, cal, func(v ssa.Value) bool { return v == ssa.Value(pe) }, field, pv, sub, nil, unlessEqual, depth+1); good && m > 0 {
+						done = true
+					}
+				}
+			}
+		}
+		if !done {
+			all = false
+			if bad == "" {
+				bad = "[" + shortFacts(p) + "]"
+			}
+		}
+	}
+	return all, n, bad
+}
